@@ -50,6 +50,8 @@ type seqGen struct {
 	fi0   int
 	enumC map[string][]int // cookies returned per dir fh
 	ext   Extents
+	mark  bool    // put invoke/return markers into the disk event stream
+	calls []*Call // every call issued (crash engine)
 }
 
 func (g *seqGen) nextTag() int {
@@ -63,7 +65,14 @@ func (g *seqGen) nextTag() int {
 func (g *seqGen) emit(c *Call) *Call {
 	c.I = g.i
 	g.i++
+	if g.mark {
+		g.s.D.Mark("inv", c.I)
+	}
 	c = g.s.Do(c)
+	if g.mark {
+		g.s.D.Mark("ret", c.I)
+		g.calls = append(g.calls, c)
+	}
 	g.t.Emit(c)
 	return c
 }
@@ -186,6 +195,10 @@ func (g *seqGen) existingName(d *gobj) string {
 
 func (g *seqGen) offset(big bool) (int, bool, uint64) {
 	const B = 4096
+	if g.cfg.Profile == "crash" || g.cfg.Profile == "crashbig" || g.cfg.Profile == "crashun" {
+		c := []int{0, 0, 1, 100, B - 1, B, B + 1, 2 * B, 3*B + 5, 7 * B, 8*B - 1, 8 * B, 9 * B, 12*B + 7}
+		return c[g.r.Intn(len(c))], false, 0
+	}
 	bounds := []int{0, 1, 100, B - 1, B, B + 1, 2 * B, 7*B + 5, 8*B - 1, 8 * B, 8*B + 1, 9 * B, 100 * B, 519*B + 7, 520*B - 1, 520 * B, 520*B + 1, 521 * B, 1032 * B, 1033*B + 9}
 	p := g.r.Intn(100)
 	switch {
@@ -206,6 +219,15 @@ func (g *seqGen) offset(big bool) (int, bool, uint64) {
 
 func (g *seqGen) count() int {
 	const B = 4096
+	if g.cfg.Profile == "crash" || g.cfg.Profile == "crashun" {
+		return []int{0, 1, 100, B - 1, B, B + 1, 2 * B, 3*B + 11, 5 * B}[g.r.Intn(9)]
+	}
+	if g.cfg.Profile == "crashbig" {
+		if g.r.Intn(6) == 0 {
+			return []int{300 * B, 480 * B, 490*B + 3}[g.r.Intn(3)]
+		}
+		return []int{1, 100, B, B + 1, 3*B + 11, 20 * B}[g.r.Intn(6)]
+	}
 	if g.cfg.Profile == "full" && g.r.Intn(2) == 0 {
 		return []int{40 * B, 100 * B, 300 * B, 64*B + 1, 200*B - 7}[g.r.Intn(5)]
 	}
@@ -312,6 +334,12 @@ func (g *seqGen) step() {
 		w["ENUM"], w["READDIR"], w["READDIRPLUS"] = 6, 5, 5
 	case "stale":
 		w["CREATE"], w["REMOVE"], w["RMDIR"], w["RENAME"] = 14, 14, 6, 10
+	case "crashun":
+		w["WRITE"], w["COMMIT"], w["CREATE"], w["REMOVE"], w["RENAME"], w["SETATTR"], w["READ"], w["MKDIR"] = 40, 12, 8, 5, 4, 6, 8, 2
+		w["GETATTR"], w["LOOKUP"], w["READDIR"], w["READDIRPLUS"], w["ENUM"], w["SYMLINK"] = 2, 2, 0, 0, 0, 1
+	case "crash", "crashbig":
+		w["WRITE"], w["CREATE"], w["MKDIR"], w["SYMLINK"], w["REMOVE"], w["RMDIR"], w["RENAME"], w["SETATTR"], w["COMMIT"] = 26, 12, 5, 3, 9, 3, 8, 9, 6
+		w["READ"], w["GETATTR"], w["LOOKUP"], w["READDIR"], w["READDIRPLUS"], w["ENUM"] = 3, 1, 2, 0, 0, 0
 	case "longnames":
 		w["CREATE"], w["MKDIR"], w["SYMLINK"], w["REMOVE"], w["RENAME"], w["LOOKUP"] = 40, 2, 3, 6, 8, 14
 		w["WRITE"], w["READ"], w["SETATTR"] = 3, 2, 1
@@ -402,6 +430,9 @@ func (g *seqGen) step() {
 		c.Data = g.payload(c.Cnt)
 		c.DLen = c.Cnt
 		c.Stable = g.r.Intn(3)
+		if g.cfg.Profile == "crashun" && g.r.Intn(10) < 7 {
+			c.Stable = 0
+		}
 		if g.r.Intn(40) == 0 && !g.cfg.Avoid["count-mismatch"] {
 			// count disagrees with the data supplied
 			c.Cnt = c.DLen + []int{1, -1, 4096, 100000}[g.r.Intn(4)]
